@@ -127,6 +127,9 @@ def date_cases():
         for lit in DATE_LITS:
             cases.append((("datecmp", cmp, lit), "d", f"d1 {cmp} {lit}"))
             cases.append((("datecmp", {"lt": "gt", "gt": "lt", "le": "ge", "ge": "le"}.get(cmp, cmp), lit), "d", f"{lit} {cmp} d1"))
+    for cmp in CMP_WORDS:
+        for lit in ("2020-01-01", "1999-12-31", "2020-02-29"):
+            cases.append((("datecmp", cmp, lit), "dt", f"date(dt1) {cmp} {lit}"))      # the date part of a date-time column
     for a, b in [("2020-01-01", "1999-12-31"), ("0999-12-31", "2020-02-29"), ("2010-06-15", "2010-06-16")]:
         cases.append((("datein", a + ";" + b), "d", f"d1 in ({a}, {b})"))
     for part, ns in (("year", [1, 999, 1000, 1999, 2020, 9999]), ("month", [1, 2, 10, 12]), ("day", [1, 9, 29, 31])):
@@ -147,7 +150,7 @@ def date_expect(cases, rows):
     outs = driver.run_batch([driver.req(*req, {"d": dcells, "dt": dtcells, "c": ccells}[which]) for req, which, t in cases])
     return [o.split(" ") for o in outs]
 
-def judge_dates(ctx, ids_fn, rows, skip=None):
+def judge_dates(ctx, ids_fn, rows, skip=None, kf=None):
     """as judge_numeric, for the date stream; skip(text, outcome) -> True when the backend's refusal is outside the supported fragment"""
     import collections
     cases = date_cases()
@@ -169,6 +172,8 @@ def judge_dates(ctx, ids_fn, rows, skip=None):
             if w == "bad-cell":
                 viol.append((t, None, "harness: malformed cell")); break
             if a != (w == "T"):
+                if kf and kf(t):
+                    tally["under-known-finding"] += 1; continue
                 tally["SPEC-MISMATCH"] += 1
                 viol.append((t, {"id": r["id"], "d1": str(r["d1"]), "dt1": str(r["dt1"])}, f"backend {'selects' if a else 'does not select'} the row, OData semantics (Spec.DateSem) says {w}"))
             else:
@@ -177,3 +182,37 @@ def judge_dates(ctx, ids_fn, rows, skip=None):
         if 0 < sel < len(rows):
             ctx.nontrivial.add("date:" + t)
     return viol, tally
+
+
+# --- the DATE fragment as a typed grammar (Spec/DateFilters.lean DateF): generator, wire form, filter text ---------------------------
+DATEF_LITS = ["2020-01-01", "2020-02-29", "0999-12-31", "1000-01-01", "9999-12-31", "0001-01-01", "2020-01-31", "2010-06-15", "1999-12-31", "2021-10-09"]
+DATEF_CMPS = {"eq": "eq", "ne": "ne", "lt": "lt", "le": "le", "gt": "gt", "ge": "ge"}
+
+def gen_datef(rng, depth):
+    """-> (wire, text)"""
+    if depth <= 0 or rng.random() < 0.35:
+        k = rng.randrange(4)
+        c = "d1"
+        cmp = rng.choice(CMP_WORDS)
+        if k == 0:
+            l = rng.choice(DATEF_LITS); return f"cmp {cmp} {c} {l}", f"{c} {cmp} {l}"
+        if k == 1:
+            l = rng.choice(DATEF_LITS); return f"cmpr {cmp} {l} {c}", f"{l} {cmp} {c}"
+        if k == 2:
+            ls = [rng.choice(DATEF_LITS) for _ in range(rng.randint(1, 3))]
+            return f"in {c} {len(ls)} " + " ".join(ls), f"{c} in (" + ", ".join(ls) + ("," if len(ls) == 1 else "") + ")"
+        p = rng.choice(["year", "month", "day"])
+        n = rng.choice({"year": [1, 999, 1000, 1999, 2020, 9999], "month": [1, 2, 6, 10, 12], "day": [1, 9, 15, 29, 31]}[p])
+        return f"part {p} {cmp} {c} {n}", f"{p}({c}) {cmp} {n}"
+    op = rng.choice(["and", "or", "not"])
+    if op == "not":
+        w, t = gen_datef(rng, depth - 1)
+        return f"not {w}", f"not ({t})"
+    (w1, t1), (w2, t2) = gen_datef(rng, depth - 1), gen_datef(rng, depth - 1)
+    return f"{op} {w1} {w2}", f"({t1}) {op} ({t2})"
+
+def datef_rows():
+    return [{"id": k + 1, "i1": None, "i2": None, "s1": None, "s2": None, "b1": None, "f1": None, "d1": d, "dt1": None} for k, d in enumerate(DATE_CELLS)]
+
+def enc_date_rows(rows):
+    return "|".join("d1:n" if r["d1"] is None else "d1:s" + r["d1"].isoformat().encode().hex() for r in rows)
